@@ -92,7 +92,7 @@ func (g *AGen) minDepthDef(d *Def, seen map[string]bool) int {
 				worst = dd
 			}
 		case "bare":
-			if bd := g.Sch.bareCtor(t.Name); bd != nil {
+			if bd := g.Sch.BareCtor(t.Name); bd != nil {
 				if dd := g.minDepthDef(bd, seen) + 1; dd > worst {
 					worst = dd
 				}
@@ -339,7 +339,7 @@ func (g *AGen) typ(t Type, depth int) (any, error) {
 		g.feat("nested-object")
 		return g.Val(c, depth)
 	case "bare":
-		c := g.Sch.bareCtor(t.Name)
+		c := g.Sch.BareCtor(t.Name)
 		if c == nil {
 			return nil, fmt.Errorf("unknown bare type %s", t.Name)
 		}
